@@ -105,7 +105,7 @@ def srswor_vc():
         gv = p.ghost["gv"]
         return [("exactly_given_ones", gv.count == z3.ToReal(GIVEN)), ("no_ones_beyond_total", z3.Not(gv.bad)), ("binary", z3.Not(gv.nonbinary))]
 
-    return VC("C19.srswor.cardinality", "simple_random_sampling_without_replacement", "pydrobert.torch._combinatorics",
+    return VC("C19.P.srswor_cardinality", "simple_random_sampling_without_replacement", "pydrobert.torch._combinatorics",
               "simple_random_sampling_without_replacement", thunk, pre=[TOTAL >= 0, GIVEN >= 0, GIVEN <= TOTAL, OUT >= TOTAL],
               posts=[("cardinality", post)], loops={("simple_random_sampling_without_replacement", 0): loop},
               twins=[("one_more_than_given", lambda p: p.ghost["gv"].count == z3.ToReal(GIVEN) + 1 if api.returns(p) else None)],
@@ -143,7 +143,7 @@ def lb_vc():
         out = ip.to_z3(p.value.a.reshape(-1)[0])
         return [("threshold_of_conditional_sample_is_b", out == B)]
 
-    return VC("C19.lb.threshold_csample", "LogisticBernoulli.threshold(csample(b))", "pydrobert.torch._straight_through", "LogisticBernoulli.csample", thunk,
+    return VC("C19.P.lb_threshold_csample", "LogisticBernoulli.threshold(csample(b))", "pydrobert.torch._straight_through", "LogisticBernoulli.csample", thunk,
               pre=[P >= 0, P <= 1, V >= 0, V < 1, z3.Or(B == 0, B == 1), EPSC > 0, EPSC < z3.RealVal(1) / 1000],
               posts=[("inverse", post)], twins=[("always_one", lambda p: ip.to_z3(p.value.a.reshape(-1)[0]) == 1 if api.returns(p) else None)],
               inputs={"probs": P, "v": V, "b": B},
